@@ -287,8 +287,7 @@ def run(chk, repo, tier):
                 good = good and ok1
         if good and n and direct:
             chk.ob('C08-c', 'D-flow', key, 'output ptype', True, 'output wavefront ptype is _propagate_ptype(wavefront.ptype)', f.loc())
-            continue
-        # wired some other way: evaluate the propagation itself for a wavefront of each type
+        # and the propagation itself, evaluated for a wavefront of each type (whatever else the helper is handed)
         for name in tables.PTYPES:
             want = docprop.get(name)
             facts = {nf.attr(S('wavefront'), 'ptype').single_atom(): pt(name), nf.attr(S('wavefront'), '_ptype').single_atom(): pt(name)}
@@ -300,8 +299,8 @@ def run(chk, repo, tier):
                     outs = [pt_name(e.bound.get('ptype')) for e in p.calls('wavefront.Wavefront.empty')]
                     if not want or not outs or any(o != want for o in outs):
                         bad.append(f'returns a wavefront of type {outs or "?"} [{conds_str(p)[:100]}]')
-                elif p.status == 'raise' and want and p.exc == 'TypeError' and not p.conds:
-                    bad.append('refused')
+                elif p.status == 'raise' and want and p.exc == 'TypeError':
+                    bad.append(f'refused with TypeError [{conds_str(p)[:80] or "always"}]')
             if not want and not any(p.status == 'raise' and p.exc == 'TypeError' for p in ps):
                 bad.append('never refused with TypeError')
             chk.ob('C08-c', 'T-transition', key, f'propagation from {name}', not bad,
